@@ -6,6 +6,11 @@ def knobs(r, i):
     return {"multi": i % 2 == 0, "threads": 1 + i % 3, "cycle_density": i % 4, "ops": 20 + r.below(80), "unsampled": i % 5 == 0, "same_trace_multi": i % 3 == 0, "open_at_close": i % 4 == 1}
 
 
+def extra(r):
+    # ids across threads: 70000 short-lived threads, one after another (implementation only)
+    return [("nomodel/id-prefix-sweep", ["0 spawn", "0 idSweep 70000"], ["no_panic", "idsweep"])]
+
+
 def run(v, tier, seed, replay):
-    seqcheck.run(v, tier, seed, replay, "C02", ["C02"], tree_oracles=["no_panic", "tree", "ids", "contexts", "exactly_once"], knobs=knobs,
+    seqcheck.run(v, tier, seed, replay, "C02", ["C02"], tree_oracles=["no_panic", "tree", "ids", "contexts", "exactly_once"], knobs=knobs, extra_cases=extra,
                  n_quick=(700, 100), n_thorough=(80000, 5000))
